@@ -64,3 +64,29 @@ Proof.
   - rewrite P, Ht. reflexivity.
   - exact (from_etree_places_typed_values_l table zeros tzs S tag x ch cn fs ms w Hf).
 Qed.
+
+(** * C02 over the bytes of a file (schema-free): any rendering of a well-formed document behind any tolerated header, in the declared
+    codec, is split by parse_header and parsed by the tokenizer / tree builder to exactly the document's tree *)
+Theorem file_parse_faithful_v1_l l h cd (d : doc) (r : rdoc) encbody :
+  valid1 h = true -> lay1_ok l h = true -> spec_codec (h1_charset h) = Some cd ->
+  wf_doc d = true -> ok_rendering [] r d -> ends_tag r = true -> all_ws (last_ws r) = true ->
+  encode_opt cd (render [] r) = Some encbody ->
+  exists msg, parse_header (file1 l h encbody) = OK (H1 h, msg) /\ parse repaired msg = OK (Some (tree_of d)).
+Proof.
+  intros V L SC Hd Hr He Hw EN.
+  destruct (rendering_splits r d Hd Hr He) as (core & E & B & P & _).
+  exists core. split; [|exact P].
+  apply (parse_header_exact_v1_c l h cd core (last_ws r) encbody V L B Hw SC). rewrite <- E. exact EN.
+Qed.
+
+Theorem file_parse_faithful_v2_l l h (d : doc) (r : rdoc) encbody :
+  valid2 h = true -> lay2_ok l = true ->
+  wf_doc d = true -> ok_rendering [] r d -> ends_tag r = true -> all_ws (last_ws r) = true ->
+  encode_opt 2 (render [] r) = Some encbody ->
+  exists msg, parse_header (file2 l h encbody) = OK (H2 h, msg) /\ parse repaired msg = OK (Some (tree_of d)).
+Proof.
+  intros V L Hd Hr He Hw EN.
+  destruct (rendering_splits r d Hd Hr He) as (core & E & B & _ & P).
+  exists (render [] r). split; [|exact P].
+  rewrite E. apply (parse_header_exact_v2_c l h core (last_ws r) encbody V L B Hw). rewrite <- E. exact EN.
+Qed.
